@@ -449,6 +449,68 @@ def refute(pid, key, label, obname, repo_src, replay_dir, seed=0, first_verdict=
     return info
 
 
+def refute_unit_bounded(pid, key, label, repo_src, budget_s=150):
+    """A unit the unbounded executor could not cover (a loop with no fitting invariant - e.g. two loops merged by a
+    change): DESIGN 2.7(3) for the whole unit.  Re-execute with the contract's concrete small sizes (loops unroll), look
+    for a model of a violated clause, replay it on the REAL function; only a natively confirmed failure is returned.
+    Never used to claim that anything holds."""
+    reset_fresh()
+    c = REGISTRY[key]
+    cfg = dict(c.configs())[label]
+    flt = c.ensure_filter(pid) if hasattr(c, "ensure_filter") else None
+    t_start = time.time()
+    for size in getattr(c, "sizes", ()):
+        if time.time() - t_start > budget_s:
+            break
+        cfg2 = dict(cfg, _size=size)
+        try:
+            rr2 = _verify_cached(c, label, cfg2, repo_src, flt, (pid, size))
+        except Exception:
+            continue
+        if rr2.unsupported:
+            continue
+        ax2 = list(rr2.ctx.global_axioms) + (list(c.extra_axioms(rr2.ctx)) if hasattr(c, "extra_axioms") else [])
+        ranges2 = []
+        for name, (lo, hi) in rr2.ctx.input_ranges.items():
+            v = rr2.ctx.inputs.get(name)
+            if v is not None and is_sym(v) and lo < hi and z3.is_real(v):
+                ranges2.append(z3.And(v > lo, v < hi))
+        from .execute import _has_quantifier
+        for ob2 in [o for o in rr2.obligations if o.kind in ("post", "bounds", "pre")]:
+            if time.time() - t_start > budget_s:
+                break
+            for extra in (ranges2, []):
+                sv = z3.Solver()
+                sv.set("timeout", 15000)
+                for a in ax2:
+                    if not _has_quantifier(a):
+                        sv.add(a)
+                for h in ob2.hyps:
+                    if not _has_quantifier(h):
+                        sv.add(h)
+                for e in extra:
+                    sv.add(e)
+                sv.add(z3.Not(ob2.goal))
+                for e in nonzero_denominators(list(ob2.hyps) + [ob2.goal]):
+                    sv.add(e)
+                if sv.check() != z3.sat:
+                    continue
+                att = {"size": size, "bounded_obligation": ob2.name}
+                try:
+                    att["inputs"] = extract_inputs(rr2.ctx, sv.model())
+                    co = run_real(c, cfg2, att["inputs"], repo_src)
+                except Exception:
+                    break
+                if _judge(c, co, att):
+                    att.update({"property": pid, "function": key, "config": label, "obligation": ob2.name, "confirmed": True,
+                                "config_values": {k: repr(v) for k, v in cfg2.items()}, "bounded_size": size,
+                                "found_by": f"bounded refutation of a unit without a fitting loop invariant: sizes fixed to "
+                                            f"{size}, model replayed on the real function"})
+                    return att
+                break
+    return None
+
+
 def _jsonable(x):
     import numpy as np
     if isinstance(x, np.ndarray):
